@@ -14,6 +14,13 @@ CLAIMED = {
     },
 }
 
+CLAIMED["C01"] = {
+    "text": "Lean theorems over the Run model, for every acyclic program, command line, child behaviour, memo state and fuel: the executable runner refines the big-step specification Runs; run-once (top-level body starts are duplicate-free, never repeat the memo, and the memo grows by exactly them) for single invocations and whole command lines; a requested new (recipe, arguments) pair does run; every prior dependency call is in the memo or started before the caller's body, subsequents run right after the body from an empty memo in declared order; command-line and dependency lists run left to right; only reachable recipes run; the fuel bound is never hit. Correspondence: random and small-scope recipe graphs run against the binary, compared with an independent reference of the documented order and with the Lean model.",
+    "note": "Trusted: Lean kernel; the Run model (tied by the differential run); fake shell vsh; Python harness and its reference order. Acyclicity is a hypothesis (the resolver's job, C03). Sequential execution of children is the OS's wait().",
+    "technique": "Lean 4 proof (induction on a big-step spec refined by the executable model) + differential correspondence",
+    "design": "4/C01",
+}
+
 PENDING = "check not built yet in this session (see DESIGN.md build order); no claim is made"
 
 
